@@ -18,3 +18,61 @@ def jobs(tier):
                         replace=[fn_append(c)], ghosts=GH_REC, solver='cadical', timeout=300, must_have=['postcondition'],
                         clause='every Unicode scalar value is encoded to exactly the standard UTF-%d units' % (8 * WIDTH[c])))
     return out
+
+
+def hex4_spec(c):
+    p = 'value'
+    return dict(buffers=[('value', 'length')], requires=['length == 4'],
+                ensures=['(QX_ISHEX(value[0]) && QX_ISHEX(value[1]) && QX_ISHEX(value[2]) && QX_ISHEX(value[3])) ==> __CPROVER_return_value == QX_HEX4(value)',
+                         '!QX_ISHEX(value[0]) ==> __CPROVER_return_value == 0',
+                         '(QX_ISHEX(value[0]) && !QX_ISHEX(value[1])) ==> __CPROVER_return_value == QX_HEXV(value[0])',
+                         '(QX_ISHEX(value[0]) && QX_ISHEX(value[1]) && !QX_ISHEX(value[2])) ==> __CPROVER_return_value == ((QX_HEXV(value[0]) << 4) | QX_HEXV(value[1]))'],
+                assigns=[])
+
+
+def shape_jobs(c):
+    ct = CHARS[c]
+    bs, uu, ul, q = ('((%s)92)' % ct, '((%s)85)' % ct, '((%s)117)' % ct, '((%s)34)' % ct)
+    hexok = lambda o: ' && '.join('QX_ISHEX(content[%d])' % (o + i) for i in range(4))
+    callee = {fn_append(c): rec_append_spec(c), fn_write(c): rec_write_spec(), fn_notempty(c): nondet_bool_spec()}
+    un = 'JSONUtils_UnEscape__%s_QV_GStream__%s.0:4,%s.0:5' % (c, c, fn_hex3(c))
+    base = dict(unit=UNIT, fn=fn_unescape(c), roots=['Qentem::JSONUtils::UnEscape<%s, QV::GStream<%s>>' % (c, c)],
+                replace=list(callee), ghosts=GH_REC, pre=HEX_PRE, solver='cadical', timeout=900, objbits=12,
+                pre_unwindset=un, must_have=['postcondition', 'unwind'], cex_K=13, cex_unwind=16)
+    # single escape  \uXXXX"
+    cp1 = 'QX_HEX4(content + 2)'
+    s1 = dict(buffers=[('content', 'length')], refs=['stream'],
+              requires=['length == 7', 'content[0] == %s && (content[1] == %s || content[1] == %s) && content[6] == %s' % (bs, uu, ul, q),
+                        hexok(2), SCALAR % (cp1, cp1, cp1), 'g_n == 0 && g_slices == 0'],
+              ensures=['__CPROVER_return_value == 7', 'g_slices == 0'] + utf_ensures(c, cp1),
+              assigns=['g_n', 'g_u0', 'g_u1', 'g_u2', 'g_u3', 'g_slices'], loops=None)
+    j1 = dict(base, name='UnEscape<%s>.u-escape' % c, specs=dict(callee, **{fn_unescape(c): s1}),
+              clause='\\uXXXX decodes to the standard encoding of the code point it names, both hex cases')
+    # surrogate pair \uHHHH\uLLLL"
+    hi, lo = 'QX_HEX4(content + 2)', 'QX_HEX4(content + 8)'
+    cp2 = '(0x10000u + ((%s & 0x3FFu) << 10) + (%s & 0x3FFu))' % (hi, lo)
+    s2 = dict(buffers=[('content', 'length')], refs=['stream'],
+              requires=['length == 13', 'content[0] == %s && (content[1] == %s || content[1] == %s)' % (bs, uu, ul),
+                        'content[6] == %s && (content[7] == %s || content[7] == %s) && content[12] == %s' % (bs, uu, ul, q),
+                        hexok(2), hexok(8), '%s >= 0xD800u && %s <= 0xDBFFu && %s >= 0xDC00u && %s <= 0xDFFFu' % (hi, hi, lo, lo),
+                        'g_n == 0 && g_slices == 0'],
+              ensures=['__CPROVER_return_value == 13', 'g_slices == 0'] + utf_ensures(c, cp2),
+              assigns=['g_n', 'g_u0', 'g_u1', 'g_u2', 'g_u3', 'g_slices'], loops=None)
+    j2 = dict(base, name='UnEscape<%s>.surrogate-pair' % c, specs=dict(callee, **{fn_unescape(c): s2}),
+              clause='\\uD800-\\uDBFF followed by \\uDC00-\\uDFFF decodes to the encoding of the supplementary code point')
+    return [j1, j2]
+
+
+_jobs0 = jobs
+
+
+def jobs(tier):
+    out = _jobs0(tier)
+    chars = ['char', 'char16_t', 'char32_t'] if tier == 'quick' else list(CHARS)
+    for c in chars:
+        out.append(dict(name='HexStringToNumber<%s>.four-digits' % c, unit=UNIT, fn=fn_hex2(c), roots=['Qentem::Digit::HexStringToNumber<unsigned int, %s>' % c],
+                        specs={fn_hex2(c): hex4_spec(c)}, pre=HEX_PRE, solver='cadical', timeout=300,
+                        pre_unwindset='%s.0:5' % fn_hex3(c), must_have=['postcondition', 'unwind'],
+                        clause='four hex digits of either case give their value; a non-hex unit stops the scan (loop unwound to its constant bound 4)'))
+        out += shape_jobs(c)
+    return out
